@@ -233,7 +233,8 @@ Record Rn (m : kv) (cn : cnode) (nd : rnode) (n : nid) : Prop := mkRn {
            | None => forall i, kv_get m (KSnapshot n i) = None
            end;
   r_csnap : forall v, c_snap cn = Some v -> v <= n_ssidx nd;
-  r_ssb : n_ssidx nd < max_index
+  r_ssb : n_ssidx nd < max_index;
+  r_lastb : n_last nd < max_index
 }.
 
 Definition R (d : pdb) (s : sstate) : Prop :=
@@ -495,4 +496,315 @@ Proof.
     destruct (nid_eqb n' n) eqn:EN; auto. apply nid_eqb_eq in EN. subst n'.
     apply Rn_cache_snap; auto. lia.
   - rewrite (list_snapshots_none _ n HS Hs). cbn. auto.
+Qed.
+
+(* ---------- frames ---------- *)
+
+Definition key_node (k : key) : nid := (k_shard k, k_replica k).
+
+Lemma Rn_frame : forall m m' cn nd n, Rn m cn nd n ->
+  (forall k, key_node k = n -> kv_get m' k = kv_get m k) -> Rn m' cn nd n.
+Proof.
+  intros m m' cn nd n H HF. destruct n as [sh re].
+  assert (forall k, key_node k = (sh, re) -> kv_get m' k = kv_get m k) as HF' by auto.
+  destruct H. constructor; auto.
+  - intros e HI. rewrite HF' by reflexivity. auto.
+  - rewrite !HF' by reflexivity. auto.
+  - rewrite HF' by reflexivity. auto.
+  - intros i Hi. rewrite HF' by reflexivity. auto.
+  - destruct (n_ss nd).
+    + rewrite HF' by reflexivity. auto.
+    + intros i. rewrite HF' by reflexivity. auto.
+Qed.
+
+Lemma Rn_cache_empty : forall m cn nd n, Rn m cn nd n -> Rn m cnode_empty nd n.
+Proof. intros m cn nd n H. destruct H. constructor; auto; cbn; intros; discriminate. Qed.
+
+Lemma WT_commit : forall w m, sorted m -> WT m ->
+  (forall k v, In (WPut k v) w -> wt k v) -> WT (kv_commit m w).
+Proof.
+  induction w as [|o w IH]; intros m HS HW HP; [exact HW|].
+  change (kv_commit m (o :: w)) with (kv_commit (kv_apply m o) w). apply IH.
+  - destruct o; cbn; [now apply sorted_put | now apply sorted_del].
+  - intros k v. destruct o as [k0 v0|k0]; cbn [kv_apply].
+    + rewrite get_put by auto. destruct (key_eqb k k0) eqn:E.
+      * apply key_eqb_eq in E. subst. intros H; inversion H; subst. apply HP. now left.
+      * apply HW.
+    + rewrite get_del by auto. destruct (key_eqb k k0); [discriminate | apply HW].
+  - intros k v HI. apply HP. now right.
+Qed.
+
+Lemma WT_del_range : forall m fk lk, sorted m -> WT m -> WT (kv_del_range m fk lk).
+Proof.
+  intros m fk lk HS HW k v. rewrite get_del_range by auto.
+  destruct (in_rangeb fk lk false k); [discriminate | apply HW].
+Qed.
+
+Lemma nid_eta : forall n : nid, (fst n, snd n) = n.
+Proof. now intros [a b]. Qed.
+
+(* the keys removed by RemoveEntriesTo *)
+Lemma entry_range_spec : forall n idx k,
+  in_rangeb (KEntry n 0) (KEntry n idx) false k = true <->
+  exists x, k = KEntry n x /\ x < idx.
+Proof.
+  intros n idx k. unfold in_rangeb. rewrite andb_true_iff, key_leb_spec, key_ltb_spec. unfold KEntry. split.
+  - intros [H1 H2]. destruct (pre_between _ _ _ _ _ _ H1 H2) as (x & -> & Hx). exists x. split; auto. lia.
+  - intros (x & -> & Hx). split; [apply pre_kle; lia | apply pre_klt; lia].
+Qed.
+
+Lemma del_range_other : forall m n idx k, sorted m ->
+  (forall x, x < idx -> k <> KEntry n x) ->
+  kv_get (kv_del_range m (KEntry n 0) (KEntry n idx)) k = kv_get m k.
+Proof.
+  intros m n idx k HS H. rewrite get_del_range by auto.
+  destruct (in_rangeb (KEntry n 0) (KEntry n idx) false k) eqn:E; auto.
+  apply entry_range_spec in E. destruct E as (x & -> & Hx). exfalso. eapply H; eauto.
+Qed.
+
+(* ---------- close / reopen ---------- *)
+
+Lemma reopen_R : forall d s, R d s -> R (p_reopen d) s.
+Proof.
+  intros d s (HS & HW & HR). split; [exact HS | split; [exact HW|]]. intros n. cbn.
+  eapply Rn_cache_empty. apply HR.
+Qed.
+
+(* ---------- RemoveEntriesTo ---------- *)
+
+Lemma supd_same : forall s n v, supd s n v n = v.
+Proof. intros. unfold supd. now rewrite nid_eqb_refl. Qed.
+Lemma supd_other : forall s n v m, m <> n -> supd s n v m = s m.
+Proof. intros. unfold supd. now rewrite nid_eqb_neq. Qed.
+
+Lemma key_node_neq : forall (k k' : key), key_node k <> key_node k' -> k <> k'.
+Proof. intros k k' H E. apply H. now subst. Qed.
+
+Lemma remove_entries_to_R : forall d s n idx, R d s -> spec_wf_op s (ORemTo n idx) = true ->
+  R (p_remove_entries_to d n idx) (spec_step s (ORemTo n idx)).
+Proof.
+  intros d s n idx (HS & HW & HR) Hwf. cbn [spec_wf_op] in Hwf. apply andb_true_iff in Hwf.
+  destruct Hwf as [W1 W2]. apply N.leb_le in W1, W2.
+  split; [now apply sorted_del_range | split; [now apply WT_del_range|]].
+  intros n'. cbn [p_remove_entries_to p_kv p_cache spec_step].
+  destruct (nid_eqb n' n) eqn:EN.
+  - apply nid_eqb_eq in EN. subst n'. pose proof (HR n) as Hn.
+    assert (HO : forall k, (forall x, k <> KEntry n x) ->
+              kv_get (kv_del_range (p_kv d) (KEntry n 0) (KEntry n idx)) k = kv_get (p_kv d) k).
+    { intros k Hk. apply del_range_other; auto. }
+    assert (HE : forall x, idx <= x ->
+              kv_get (kv_del_range (p_kv d) (KEntry n 0) (KEntry n idx)) (KEntry n x) = kv_get (p_kv d) (KEntry n x)).
+    { intros x Hx. apply del_range_other; auto. intros y Hy E. ktags. inversion E. lia. }
+    pose proof (r_contig _ _ _ _ Hn) as HC.
+    destruct (n_marker (s n) <? idx) eqn:EM.
+    + apply N.ltb_lt in EM. rewrite supd_same.
+      destruct (contig_above _ _ idx HC ltac:(lia)) as [CA CL]. unfold n_last in *.
+      destruct Hn. constructor; cbn [n_marker n_ents n_st n_ss n_mterm]; auto.
+      * intros e HI. unfold above in HI. apply filter_In in HI. destruct HI as [HI HX].
+        apply N.ltb_lt in HX. rewrite HE by lia. auto.
+      * rewrite HO by (intros x E; ktags; inversion E). unfold n_last in *. cbn [n_marker n_ents].
+        rewrite CL. replace (idx + (n_marker (s n) + 1 + nlen (n_ents (s n)) - (idx + 1)))
+          with (n_marker (s n) + nlen (n_ents (s n))) by lia. auto.
+      * intros v Hv. unfold n_last. cbn [n_marker n_ents]. rewrite CL. rewrite (r_cmax0 v Hv). unfold n_last. lia.
+      * rewrite HO by (intros x E; ktags; inversion E). auto.
+      * intros i Hi. rewrite HO by (intros x E; ktags; inversion E). auto.
+      * destruct (n_ss (s n)).
+        -- rewrite HO by (intros x E; ktags; inversion E). auto.
+        -- intros i. rewrite HO by (intros x E; ktags; inversion E). auto.
+      * unfold n_last in *. cbn [n_marker n_ents]. rewrite CL. lia.
+    + apply N.ltb_ge in EM. destruct Hn. constructor; auto.
+      * intros e HI. pose proof (contig_bounds _ _ _ HC HI). rewrite HE by lia. auto.
+      * rewrite HO by (intros x E; ktags; inversion E). auto.
+      * rewrite HO by (intros x E; ktags; inversion E). auto.
+      * intros i Hi. rewrite HO by (intros x E; ktags; inversion E). auto.
+      * destruct (n_ss (s n)).
+        -- rewrite HO by (intros x E; ktags; inversion E). auto.
+        -- intros i. rewrite HO by (intros x E; ktags; inversion E). auto.
+  - assert (n' <> n) as HN by (intros ->; rewrite nid_eqb_refl in EN; discriminate).
+    assert (Rn (kv_del_range (p_kv d) (KEntry n 0) (KEntry n idx)) (p_cache d n') (s n') n') as HF.
+    { eapply Rn_frame; [apply HR|]. intros k Hk. apply del_range_other; auto.
+      intros x _ E. subst k. apply HN. rewrite <- Hk. unfold key_node, KEntry. cbn. apply nid_eta. }
+    destruct (n_marker (s n) <? idx); [rewrite supd_other by auto|]; exact HF.
+Qed.
+
+(* ---------- snapshot records: saving ---------- *)
+
+Lemma wb_last_dels : forall ks k,
+  wb_last (map WDel ks) k = if existsb (key_eqb k) ks then Some None else None.
+Proof.
+  induction ks as [|k0 ks IH]; intros k; cbn [map wb_last existsb]; auto.
+  rewrite IH. cbn [wkey]. destruct (existsb (key_eqb k) ks); [now rewrite orb_true_r|].
+  rewrite orb_false_r. now destruct (key_eqb k k0).
+Qed.
+
+Lemma save_snapshot_wb_some : forall m n ss l, list_snapshots m n = Some l -> ss_emptyb ss = false ->
+  save_snapshot_wb m n ss =
+  Some (map WDel (map (fun old => KSnapshot n (ss_index old)) (filter (fun old => ss_index old <? ss_index ss) l))
+        ++ [WPut (KSnapshot n (ss_index ss)) (VSnap ss)]).
+Proof. intros m n ss l H E. unfold save_snapshot_wb. rewrite E, H. now rewrite map_map. Qed.
+
+Lemma KSnapshot_inj : forall n i j, KSnapshot n i = KSnapshot n j -> i = j.
+Proof. intros n i j H. unfold KSnapshot in H. now inversion H. Qed.
+
+Lemma existsb_snap_keys : forall n (l : list snapshot) k,
+  existsb (key_eqb k) (map (fun old => KSnapshot n (ss_index old)) l) = true <->
+  exists old, In old l /\ k = KSnapshot n (ss_index old).
+Proof.
+  intros n l k. rewrite existsb_exists. split.
+  - intros (x & HI & HE). apply in_map_iff in HI. destruct HI as (old & <- & HI).
+    apply key_eqb_eq in HE. eauto.
+  - intros (old & HI & ->). exists (KSnapshot n (ss_index old)). split; [|apply key_eqb_refl].
+    apply in_map_iff. eauto.
+Qed.
+
+(* the effect of the snapshot part of a batch on the snapshot keys of the node *)
+Lemma snap_wb_effect : forall m n ss l, sorted m -> WT m ->
+  list_snapshots m n = Some l ->
+  (forall old, In old l <-> (kv_get m (KSnapshot n (ss_index old)) = Some (VSnap old) /\ ss_index old <= u64max)) ->
+  ss_index ss <= u64max ->
+  let w := map WDel (map (fun old => KSnapshot n (ss_index old)) (filter (fun old => ss_index old <? ss_index ss) l))
+           ++ [WPut (KSnapshot n (ss_index ss)) (VSnap ss)] in
+  wb_last w (KSnapshot n (ss_index ss)) = Some (Some (VSnap ss)) /\
+  (forall i, i < ss_index ss -> wb_last w (KSnapshot n i) = Some None \/
+                               (wb_last w (KSnapshot n i) = None /\ kv_get m (KSnapshot n i) = None)) /\
+  (forall k, (forall i, i <= ss_index ss -> k <> KSnapshot n i) -> wb_last w k = None).
+Proof.
+  intros m n ss l HS HW HL Hl Hb w. subst w. repeat split.
+  - rewrite wb_last_app. cbn [wb_last wkey]. now rewrite key_eqb_refl.
+  - intros i Hi. rewrite wb_last_app. cbn [wb_last wkey].
+    rewrite key_eqb_neq by (intros E; apply KSnapshot_inj in E; lia).
+    rewrite wb_last_dels.
+    destruct (existsb _ _) eqn:E; [now left | right; split; auto].
+    destruct (kv_get m (KSnapshot n i)) eqn:G; auto. exfalso.
+    destruct (HW _ _ G) as (_ & W & _). destruct (W eq_refl) as (old & -> & Wi). cbn in Wi.
+    assert (In old l) as HI by (apply Hl; rewrite Wi; split; [auto | lia]).
+    apply not_true_iff_false in E. apply E. apply existsb_snap_keys. exists old. split; [|now rewrite Wi].
+    apply filter_In. split; auto. apply N.ltb_lt. lia.
+  - intros k Hk. rewrite wb_last_app. cbn [wb_last wkey].
+    rewrite key_eqb_neq by (apply Hk; lia). rewrite wb_last_dels.
+    destruct (existsb _ _) eqn:E; auto. exfalso. apply existsb_snap_keys in E.
+    destruct E as (old & HI & ->). apply filter_In in HI. destruct HI as [_ HI]. apply N.ltb_lt in HI.
+    eapply (Hk (ss_index old)); [lia | reflexivity].
+Qed.
+
+Definition oidx (o : option snapshot) : N := match o with Some ss => ss_index ss | None => 0 end.
+
+Lemma snap_clauses : forall (m m' : kv) n (cur : option snapshot) ss,
+  (forall i, oidx cur < i -> kv_get m (KSnapshot n i) = None) ->
+  (match cur with
+   | Some c => kv_get m (KSnapshot n (ss_index c)) = Some (VSnap c) /\ 0 < ss_index c
+   | None => forall i, kv_get m (KSnapshot n i) = None end) ->
+  oidx cur < max_index ->
+  kv_get m' (KSnapshot n (ss_index ss)) = Some (VSnap ss) ->
+  (forall i, ss_index ss < i -> kv_get m' (KSnapshot n i) = kv_get m (KSnapshot n i)) ->
+  0 < ss_index ss < max_index ->
+  (ss_index ss = oidx cur -> cur = Some ss) ->
+  let cur' := if oidx cur <? ss_index ss then Some ss else cur in
+  (forall i, oidx cur' < i -> kv_get m' (KSnapshot n i) = None) /\
+  (match cur' with
+   | Some c => kv_get m' (KSnapshot n (ss_index c)) = Some (VSnap c) /\ 0 < ss_index c
+   | None => forall i, kv_get m' (KSnapshot n i) = None end) /\
+  oidx cur' < max_index.
+Proof.
+  intros m m' n cur ss Hhi Hs Hb G1 G3 HS Heq cur'. subst cur'.
+  destruct (oidx cur <? ss_index ss) eqn:E.
+  - apply N.ltb_lt in E. cbn [oidx]. repeat split; auto; try lia.
+    intros i Hi. rewrite G3 by lia. apply Hhi. lia.
+  - apply N.ltb_ge in E. destruct cur as [c|]; [|cbn in E; lia]. cbn [oidx] in *.
+    destruct Hs as [Hs Hp]. repeat split; auto.
+    + intros i Hi. rewrite G3 by lia. apply Hhi. lia.
+    + destruct (N.eq_dec (ss_index ss) (ss_index c)) as [X|X].
+      * specialize (Heq X). inversion Heq; subst. auto.
+      * rewrite G3 by lia. auto.
+Qed.
+
+Lemma ss_eqb_eq : forall a b, ss_eqb a b = true -> a = b.
+Proof.
+  intros [a1 a2 a3] [b1 b2 b3]. unfold ss_eqb; cbn. rewrite !andb_true_iff, !N.eqb_eq.
+  intros [[-> ->] ->]. reflexivity.
+Qed.
+
+Lemma n_ssidx_oidx : forall nd, n_ssidx nd = oidx (n_ss nd).
+Proof. reflexivity. Qed.
+
+(* ---------- SaveSnapshots ---------- *)
+
+Lemma save_snapshots_R : forall d s n ss, R d s -> spec_wf_op s (OSnap n ss) = true ->
+  exists d', plain_step d (OSnap n ss) = Some d' /\ R d' (spec_step s (OSnap n ss)).
+Proof.
+  intros d s n ss (HS & HW & HR) Hwf. cbn [spec_wf_op] in Hwf.
+  rewrite !andb_true_iff in Hwf. destruct Hwf as ((W1 & W2) & W3).
+  apply negb_true_iff in W1. apply N.leb_le in W2.
+  pose proof (HR n) as Hn. pose proof (r_ssb _ _ _ _ Hn) as Hb. pose proof max_index_u64 as HU.
+  assert (0 < ss_index ss) as Hpos by (unfold ss_emptyb in W1; apply N.eqb_neq in W1; lia).
+  assert (Heq : ss_index ss = n_ssidx (s n) -> n_ss (s n) = Some ss).
+  { intros X. rewrite X, N.eqb_refl in W3. cbn in W3. destruct (n_ss (s n)); [|discriminate].
+    apply ss_eqb_eq in W3. now subst. }
+  destruct (list_snapshots_spec (p_kv d) n HS HW) as (l & HL & Hl).
+  cbn [plain_step]. unfold p_save_snapshots. cbn [save_snapshots_wb mk_snap_update u_ss u_node].
+  rewrite W1.
+  (* the answer of trySaveSnapshot *)
+  assert (HT : (exists c1, cs_try_save_snapshot (p_cache d) n (ss_index ss) = (c1, true) /\
+                  (forall n', n' <> n -> c1 n' = p_cache d n') /\
+                  (exists v, c1 n = mkC (c_state (p_cache d n)) (c_max (p_cache d n)) (Some v) (c_batch (p_cache d n))
+                             /\ (v <= n_ssidx (s n) \/ v = ss_index ss)))
+               \/ (cs_try_save_snapshot (p_cache d) n (ss_index ss) = (p_cache d, false) /\ ss_index ss <= n_ssidx (s n))).
+  { unfold cs_try_save_snapshot. destruct (c_snap (p_cache d n)) as [v|] eqn:EC.
+    - destruct (v <? ss_index ss) eqn:EV.
+      + left. exists (p_cache d). repeat split; auto. exists v. split.
+        * destruct (p_cache d n); cbn in *; now subst.
+        * left. apply (r_csnap _ _ _ _ Hn v EC).
+      + right. split; auto. apply N.ltb_ge in EV. pose proof (r_csnap _ _ _ _ Hn v EC). lia.
+    - left. eexists. split; [reflexivity|]. split.
+      + intros n' Hn'. unfold cupd. now rewrite nid_eqb_neq.
+      + exists (ss_index ss). split; [unfold cupd; now rewrite nid_eqb_refl | now right]. }
+  destruct HT as [(c1 & -> & HC1 & (v & HC2 & Hv))|(-> & Hle)].
+  - rewrite (save_snapshot_wb_some _ _ _ l HL W1). eexists. split; [reflexivity|].
+    set (w := _ ++ [WPut _ _]). rewrite app_nil_r.
+    pose proof (r_lastb _ _ _ _ Hn) as Hlb.
+    destruct (snap_wb_effect (p_kv d) n ss l HS HW HL Hl ltac:(lia)) as (E1 & E2 & E3).
+    fold w in E1, E2, E3.
+    assert (HG : forall k, kv_get (kv_commit (p_kv d) w) k = match wb_last w k with Some r => r | None => kv_get (p_kv d) k end)
+      by (intros; now apply get_commit).
+    split; [now apply sorted_commit | split].
+    { apply WT_commit; auto. intros k v0 HI. subst w. apply in_app_or in HI. destruct HI as [HI|HI].
+      - apply in_map_iff in HI. destruct HI as (x & X & _). discriminate.
+      - destruct HI as [HI|[]]. inversion HI; subst. unfold wt, KSnapshot; cbn. ktags.
+        repeat split; intros X; try discriminate. eauto. }
+    intros n'. cbn [p_kv p_cache spec_step].
+    destruct (nid_eqb n' n) eqn:EN.
+    + apply nid_eqb_eq in EN. subst n'.
+      assert (HO : forall k, (forall i, k <> KSnapshot n i) -> kv_get (kv_commit (p_kv d) w) k = kv_get (p_kv d) k).
+      { intros k Hk. rewrite HG, E3; auto. }
+      destruct (snap_clauses (p_kv d) (kv_commit (p_kv d) w) n (n_ss (s n)) ss) as (C1 & C2 & C3);
+        try (apply Hn); auto.
+      { rewrite HG, E1. reflexivity. }
+      { intros i Hi. rewrite HG, E3; auto. intros j Hj X. apply KSnapshot_inj in X. lia. }
+      { lia. }
+      rewrite <- n_ssidx_oidx in *.
+      assert (Rn (kv_commit (p_kv d) w) (c1 n)
+                 (mkNode (n_marker (s n)) (n_mterm (s n)) (n_ents (s n)) (n_st (s n))
+                         (if n_ssidx (s n) <? ss_index ss then Some ss else n_ss (s n))) n) as HRes.
+      { destruct Hn. constructor; cbn [n_marker n_mterm n_ents n_st n_ss]; auto.
+        - intros e HI. rewrite HO by (intros i X; ktags; inversion X). auto.
+        - rewrite HO by (intros i X; ktags; inversion X). auto.
+        - rewrite HC2. cbn. auto.
+        - rewrite HO by (intros i X; ktags; inversion X). auto.
+        - rewrite HC2. cbn. auto.
+        - rewrite HC2. cbn. intros v' X. inversion X; subst v'. unfold n_ssidx at 1. cbn [n_ss].
+          fold (oidx (if n_ssidx (s n) <? ss_index ss then Some ss else n_ss (s n))).
+          destruct (n_ssidx (s n) <? ss_index ss) eqn:Y; cbn [oidx].
+          + apply N.ltb_lt in Y. destruct Hv; lia.
+          + apply N.ltb_ge in Y. rewrite <- n_ssidx_oidx. destruct Hv; lia. }
+      destruct (n_ssidx (s n) <? ss_index ss) eqn:Y.
+      * rewrite supd_same. exact HRes.
+      * destruct (s n) eqn:ES. cbn in *. exact HRes.
+    + assert (n' <> n) as HN by (intros ->; rewrite nid_eqb_refl in EN; discriminate).
+      assert (Rn (kv_commit (p_kv d) w) (c1 n') (s n') n') as HF.
+      { rewrite HC1 by auto. eapply Rn_frame; [apply HR|]. intros k Hk. rewrite HG, E3; auto.
+        intros i _ X. subst k. apply HN. rewrite <- Hk. unfold key_node, KSnapshot. cbn. apply nid_eta. }
+      destruct (n_ssidx (s n) <? ss_index ss); [rewrite supd_other by auto|]; exact HF.
+  - eexists. split; [reflexivity|]. cbn [kv_commit fold_left spec_step].
+    assert (n_ssidx (s n) <? ss_index ss = false) as -> by (apply N.ltb_ge; lia).
+    split; [exact HS | split; [exact HW | exact HR]].
 Qed.
